@@ -11,8 +11,49 @@ fn thread_cpu_us() -> u128 {
     ts.tv_sec as u128 * 1_000_000 + ts.tv_nsec as u128 / 1000
 }
 
+// nesting of one construct inside an operand position of itself, n deep: (name, template, innermost leaf, prefix, suffix).
+// In a template `@` is the next level and `#` the level number (names stay distinct).
+const NESTINGS: [(&str, &str, &str, &str, &str); 20] = [
+    ("nest-group2-body", "a# = 1; b# = 2; (@)", "0", "r = (", "); r"),
+    ("nest-group2-definition", "a# = (@); b# = 2; a#", "0", "r = (", "); r"),
+    ("nest-group-annotation", "a# : (@) = 1; a#", "int", "", ""),
+    ("nest-application-middle", "f (@) y", "x y", "", ""),
+    ("nest-application-head", "(@) y z", "f", "", ""),
+    ("nest-application-last", "f y (@)", "x", "", ""),
+    ("nest-if-condition", "if (@) then 1 else 2", "true", "", ""),
+    ("nest-if-then", "if true then (@) else 2", "1", "", ""),
+    ("nest-lambda-domain", "(x# : (@)) => x#", "type", "", ""),
+    ("nest-lambda-body-group", "(x# : int) => (a# = x#; @)", "0", "", ""),
+    ("nest-pi-domain", "(x# : (@)) -> type", "type", "", ""),
+    ("nest-implicit-domain", "{x# : (@)} => x#", "type", "", ""),
+    ("nest-sum-middle", "1 + (@) + 2", "3", "", ""),
+    ("nest-difference-left", "(@) - 1 - 2", "3", "", ""),
+    ("nest-product-middle", "1 * (@) / 2", "3", "", ""),
+    ("nest-comparison-right", "1 < (2 + (@))", "3", "", ""),
+    ("nest-negation-group", "- (@)", "1", "", ""),
+    ("nest-group2-body-truncated", "a# = 1; b# = 2; (@", "0", "r = (", ""),
+    ("nest-application-middle-truncated", "f (@ y", "x y", "", ""),
+    ("nest-arrow-right", "type -> (a# = type; @)", "type", "", ""),
+];
+
+fn nesting(tpl: &str, leaf: &str, n: usize) -> String {
+    let (before, after) = tpl.split_once('@').unwrap();
+    let mut s = String::new();
+    for i in 0..n {
+        s += &before.replace('#', &i.to_string());
+    }
+    s += leaf;
+    for i in (0..n).rev() {
+        s += &after.replace('#', &i.to_string());
+    }
+    s
+}
+
 fn family(name: &str, n: usize) -> String {
     let rep = |s: &str, k: usize| s.repeat(k);
+    if let Some((_, tpl, leaf, pre, post)) = NESTINGS.iter().find(|x| x.0 == name) {
+        return format!("{pre}{}{post}", nesting(tpl, leaf, n));
+    }
     match name {
         "nested-parens" => format!("{}x{}", rep("(", n), rep(")", n)),
         "nested-parens-truncated" => format!("{}x{}", rep("(", n), rep(")", n / 2)),
@@ -64,7 +105,11 @@ fn family(name: &str, n: usize) -> String {
     }
 }
 
-pub const FAMILIES: [&str; 33] = ["nested-parens", "nested-parens-truncated", "nested-parens-unbalanced", "nested-pi", "nested-lambda", "application-chain", "sum-chain",
+pub fn families() -> Vec<&'static str> {
+    BASE_FAMILIES.iter().copied().chain(NESTINGS.iter().map(|x| x.0)).collect()
+}
+
+pub const BASE_FAMILIES: [&str; 33] = ["nested-parens", "nested-parens-truncated", "nested-parens-unbalanced", "nested-pi", "nested-lambda", "application-chain", "sum-chain",
     "product-chain", "mixed-chain", "comparison-nest", "definitions", "definitions-lines", "nested-if", "sequential-if", "nested-if-truncated", "negations", "arrows",
     "group-annotations", "token-soup", "open-braces", "quotient-chain", "difference-chain", "grouped-operand-chain", "application-grouped-chain",
     "braces-missing-domain", "parens-missing-domain", "braces-nested-domains", "definitions-fibonacci", "definitions-chain-forward", "nested-groups", "implicit-lambdas",
@@ -117,7 +162,8 @@ pub fn record(args: &[String]) {
     let mut evs: Vec<serde_json::Value> = vec![];
     // rounds by size, smallest first: a family that hits the time limit is not run at larger sizes (the case that hit the
     // limit is itself the witness)
-    let mut alive: Vec<&str> = FAMILIES.to_vec();
+    let fams = families();
+    let mut alive: Vec<&str> = fams.clone();
     let mut n = maxn / 8;
     while n <= maxn && !alive.is_empty() {
         let items: Vec<String> = alive.iter().map(|f| json!({"family": f, "n": n}).to_string()).collect();
@@ -137,7 +183,7 @@ pub fn record(args: &[String]) {
         n *= 2;
     }
     // the trace specification compares consecutive sizes of one family: group the events by family
-    evs.sort_by_key(|e| (FAMILIES.iter().position(|f| *f == e["family"].as_str().unwrap()).unwrap(), e["n"].as_u64().unwrap()));
+    evs.sort_by_key(|e| (fams.iter().position(|f| *f == e["family"].as_str().unwrap()).unwrap(), e["n"].as_u64().unwrap()));
     // CPU time on a busy machine is noisy (cache and page-fault contention): a suspicious step between two sizes is measured
     // again, one pair at a time, and the smallest time seen is kept -- a real blow-up survives this, noise does not
     for _ in 0..3 {
@@ -169,7 +215,7 @@ pub fn record(args: &[String]) {
             }
         }
     }
-    evs.sort_by_key(|e| (FAMILIES.iter().position(|f| *f == e["family"].as_str().unwrap()).unwrap(), e["n"].as_u64().unwrap()));
+    evs.sort_by_key(|e| (fams.iter().position(|f| *f == e["family"].as_str().unwrap()).unwrap(), e["n"].as_u64().unwrap()));
     let text: String = evs.iter().map(|e| format!("{e}\n")).collect();
     std::fs::write(&args[1], text).unwrap();
 }
